@@ -348,6 +348,11 @@ Section Main.
     123 :: member (print (JStr k1)) (print J1) ++ 44 :: member (print (JStr k2)) (print J2) ++ [125].
   Proof. rewrite print_obj'. cbn [map join]. rewrite <- app_assoc. reflexivity. Qed.
 
+  Lemma stored_json_ok js data : stored_json js = Ok data -> data = js /\ exists j, strict_parse js = Some j.
+  Proof.
+    unfold stored_json. destruct (strict_parse js) as [j|]; [|discriminate]. intros [= <-]. split; [reflexivity|exists j; reflexivity].
+  Qed.
+
   Lemma enc_any_tree pb m txt :
     enc_any any_inner pb m = Ok txt -> raw_ok (FAny pb) (VMsg m) ->
     exists J, tree_of txt J /\ wire_value (FAny pb) (VMsg m) J.
@@ -362,7 +367,7 @@ Section Main.
       - apply obind_ok in Hdata as (pbytes & _ & Hd). eapply Hinner; exact Hd.
       - destruct (msg_get 3 m) as [[]|] eqn:E3;
           try (apply obind_ok in Hdata as (pbytes & _ & Hd); eapply Hinner; exact Hd).
-        injection Hdata as <-. inversion Hraw as [| | | | | |? ? Hr]; subst. eapply Hr; eauto. }
+        apply stored_json_ok in Hdata as [-> _]. inversion Hraw as [| | | | | |? ? Hr]; subst. eapply Hr; eauto. }
     destruct Hc as (Jd & Hwd & ->).
     set (tn := if pb then trim_prefix any_prefix tn0 else tn0) in *.
     exists (JObj [(txt_type, JStr tn); (txt_value, Jd)]). split.
@@ -371,7 +376,7 @@ Section Main.
       + rewrite print_two. reflexivity.
     - assert (tn = any_type_name pb m) as ->.
       { unfold any_type_name, tn. rewrite (field_bytes_s _ _ _ Htn). reflexivity. }
-      constructor. intros s -> E3. rewrite E3 in Hdata. injection Hdata as ->. apply parse_print. exact Hwd.
+      constructor. intros s -> E3. rewrite E3 in Hdata. apply stored_json_ok in Hdata as [<- _]. apply parse_print. exact Hwd.
   Qed.
 
   Definition P_value (f : nat) : Prop := forall t v txt,
